@@ -378,24 +378,7 @@ func (c CollectionPage) Equals(with Item) bool {
 				return nil
 			}
 		}
-		if w.Current != nil {
-			if !ItemsEqual(c.Current, w.Current) {
-				result = false
-				return nil
-			}
-		}
-		if w.First != nil {
-			if !ItemsEqual(c.First, w.First) {
-				result = false
-				return nil
-			}
-		}
-		if w.Last != nil {
-			if !ItemsEqual(c.Last, w.Last) {
-				result = false
-				return nil
-			}
-		}
+		// current, first and last were compared as part of the collection above
 		if w.Next != nil {
 			if !ItemsEqual(c.Next, w.Next) {
 				result = false
